@@ -492,3 +492,175 @@ def check_embed_fold(sigs, fl):
     if a[0] == 'return' and params_data(a[1]) != params_data(b[1]):
         return [('law:fold:parameters', '%s vs %s' % (a[1], b[1]))]
     return []
+
+
+# --------------------------------------------------------------------------- forwards
+def check_forwards(outer, inner, n, names, fl, outcome, maxn=None):
+    real_sigtools()
+    from sigtools import _signatures
+    import inspect as _inspect
+    bad = []
+    # law:compose against the public algebra
+    def composed():
+        inner2 = inner
+        if fl.get('partial'):
+            ps = [p if p.kind in (p.VAR_POSITIONAL, p.VAR_KEYWORD) else p.replace(default=None) for p in inner.parameters.values()]
+            inner2 = inner.replace(parameters=ps)
+        masked = _signatures.mask(inner2, n, *names, hide_args=fl.get('hide_args', False), hide_kwargs=fl.get('hide_kwargs', False))
+        return _signatures.embed(outer, masked, use_varargs=fl.get('use_varargs', True), use_varkwargs=fl.get('use_varkwargs', True))
+    exp = run_real(composed)
+    if exp[0] != outcome[0]:
+        bad.append(('law:compose:same_outcome', '%r vs %r' % (outcome, exp)))
+    elif exp[0] == 'return':
+        if params_data(exp[1]) != params_data(outcome[1]):
+            bad.append(('law:compose:parameters', '%s vs %s' % (outcome[1], exp[1])))
+        if not _src_equal(exp[1], outcome[1]):
+            bad.append(('law:compose:provenance', '%r vs %r' % (outcome[1].sources, exp[1].sources)))
+        if exp[1].return_annotation != outcome[1].return_annotation:
+            bad.append(('law:compose:return_annotation', ''))
+    elif type(exp[1]) is not type(outcome[1]):
+        bad.append(('law:compose:same_outcome', '%r vs %r' % (outcome, exp)))
+    if outcome[0] == 'raise':
+        if not isinstance(outcome[1], ValueError):
+            bad.append(('raises:only_ValueError:type', repr(outcome[1])))
+        return bad
+    res = outcome[1]
+    rv, ov, iv = cview(res), cview(outer), cview(inner)
+    if not isinstance(res, _signatures.UpgradedSignature) or not all(isinstance(p, _signatures.UpgradedParameter) for p in res.parameters.values()) \
+            or '+depths' not in getattr(res, 'sources', {}):
+        bad.append(('post:wellformed:upgraded_with_depths', 'not upgraded'))
+    nohide = not fl.get('hide_args') and not fl.get('hide_kwargs')
+    po = {p.name for p in inner.parameters.values() if p.kind == p.POSITIONAL_ONLY}
+    if nohide and len(set(names)) == len(names) and not (set(names) & po):
+        if fl.get('partial'):
+            from .spec import P as _P, View as _V
+            iv = _V([_P(p.name, p.kind, True if p.kind in (PO, POK, KWO) else p.has) for p in iv.params])
+        pool = all_names([outer, inner]) + [x for x in names if x not in outer.parameters and x not in inner.parameters]
+        if maxn is None:
+            maxn = npos(outer) + npos(inner) + 2
+        kp = kw_passable_names(outer)
+        uv, uk = fl.get('use_varargs', True), fl.get('use_varkwargs', True)
+        no_outer_default = all(p.default is p.empty for p in outer.parameters.values() if p.kind in (p.POSITIONAL_ONLY, p.POSITIONAL_OR_KEYWORD))
+        for m, ks in call_shapes(pool, maxn):
+            if set(ks) & set(names):
+                continue
+            if not spec.noncolliding(PyOps, rv, [ov, cview(inner)], ccall(m, ks)):
+                continue
+            a = real_accepts(rv, m, ks)
+            sp = max(0, m - npos(outer)) if uv else 0
+            sk = tuple(k for k in ks if k not in kp) if uk else ()
+            e = real_accepts(ov, m, ks) and real_accepts(iv, n + sp, tuple(sk) + tuple(names))
+            if a and not e:
+                bad.append(('post:sound', 'call %r' % ((m, ks),)))
+                break
+            if e and not a and not fl.get('partial') and no_outer_default:
+                bad.append(('post:exact', 'call %r' % ((m, ks),)))
+                break
+    for p in res.parameters.values():
+        if p.upgraded_annotation.source_value() != p.annotation:
+            bad.append(('post:ua_follows', p.name))
+        if fl.get('partial') and p.name in inner.parameters and p.name not in outer.parameters and p.kind not in (p.VAR_POSITIONAL, p.VAR_KEYWORD) and p.default is p.empty:
+            bad.append(('post:meta_partial_all_optional', p.name))
+    for c, d in check_sources_wf(res, fn_declares):
+        bad.append(('post:' + c, d))
+    if any(res.sources is s.sources for s in (outer, inner)) or any(v2 is v1 for v1 in res.sources.values() for s in (outer, inner) for v2 in s.sources.values()):
+        bad.append(('frame:fresh_sources', 'shared provenance container'))
+    return bad
+
+
+# --------------------------------------------------------------------------- retrieval / partial
+def check_plain_retrieval(fn, outcome):
+    import inspect as _inspect
+    real_sigtools()
+    from sigtools import _signatures
+    if outcome[0] == 'raise':
+        return [('post:is_def_signature:no_exception', repr(outcome[1]))]
+    res = outcome[1]
+    bad = []
+    d = _inspect.signature(fn)
+    if not isinstance(res, _signatures.UpgradedSignature) or not all(isinstance(p, _signatures.UpgradedParameter) for p in res.parameters.values()):
+        bad.append(('post:is_def_signature:upgraded', ''))
+    if params_data(res) != params_data(d):
+        bad.append(('post:is_def_signature:parameters', '%s vs %s' % (res, d)))
+    exp = {n: [fn] for n in d.parameters}
+    exp['+depths'] = {fn: 0}
+    if res.sources != exp:
+        bad.append(('post:is_def_signature:provenance', repr(res.sources)))
+    hints = getattr(fn, '__annotations__', {})
+    for p in res.parameters.values():
+        want = p.annotation
+        if isinstance(want, str):
+            want = eval(want, fn.__globals__, {})
+        if p.upgraded_annotation.source_value() != want:
+            bad.append(('post:is_def_signature:ua', p.name))
+    return bad
+
+
+def check_partial(fn, pobj, n, kw, outcome, maxn=None):
+    import inspect as _inspect
+    real_sigtools()
+    from sigtools import _signatures
+    bad = []
+    d = _inspect.signature(fn)
+    dv = cview(d)
+    po = {p.name for p in d.parameters.values() if p.kind == p.POSITIONAL_ONLY}
+    applicable = not (set(kw) & po)
+    pool = list(d.parameters) + [k for k in kw if k not in d.parameters]
+    if maxn is None:
+        maxn = npos(d) + 2
+    shapes_ = list(call_shapes(pool, maxn))
+
+    def really(m, ks):
+        try:
+            pobj(*([0] * m), **{k: 0 for k in ks})
+            return True
+        except TypeError:
+            return False
+    if outcome[0] == 'raise':
+        if not isinstance(outcome[1], ValueError):
+            bad.append(('raises:only_ValueError:type', repr(outcome[1])))
+        elif applicable:
+            for m, ks in shapes_:
+                if really(m, ks):
+                    bad.append(('raises:only_if_impossible', 'the partial object accepts %r' % ((m, ks),)))
+                    break
+        return bad
+    res = outcome[1]
+    rv = cview(res)
+    if applicable:
+        for m, ks in shapes_:
+            if not spec.noncolliding(PyOps, rv, [dv], ccall(m, ks)):
+                continue
+            a, e = real_accepts(rv, m, ks), really(m, ks)
+            if a != e:
+                bad.append(('post:partial_exact', 'call %r: signature %s, partial object %s' % ((m, ks), a, e)))
+                break
+        for k, v in kw.items():
+            p = res.parameters.get(k)
+            if p is None or p.kind != p.KEYWORD_ONLY or p.default != v:
+                bad.append(('post:partial_keywords:bound_keyword_is_kwo_with_value', k))
+        if any(k in d.parameters and d.parameters[k].kind == _inspect.Parameter.POSITIONAL_OR_KEYWORD for k in kw) and rv.V:
+            bad.append(('post:partial_keywords:varargs_removed', ''))
+        for p in res.parameters.values():
+            o = d.parameters.get(p.name)
+            if o is None:
+                if p.name not in kw:
+                    bad.append(('post:partial_keywords:others_unchanged', p.name))
+                continue
+            if p.annotation != o.annotation or (p.name not in kw and p.default != o.default):
+                bad.append(('post:partial_keywords:others_unchanged', p.name))
+    dep = res.sources.get('+depths', {})
+    if dep != {pobj: 0, fn: 1}:
+        bad.append(('post:partial_sources:depths', repr(dep)))
+    for p in res.parameters.values():
+        bound_here = p.name in d.parameters and not (d.parameters[p.name].kind in (p.VAR_POSITIONAL, p.VAR_KEYWORD) and p.kind == p.KEYWORD_ONLY)
+        exp = [fn] if bound_here else [pobj]
+        if res.sources.get(p.name) != exp:
+            bad.append(('post:partial_sources:entry', '%s: %r' % (p.name, res.sources.get(p.name))))
+    for k in res.sources:
+        if k != '+depths' and k not in res.parameters:
+            bad.append(('post:partial_sources:key_is_parameter', k))
+    for p in res.parameters.values():
+        if p.upgraded_annotation.source_value() != p.annotation:
+            bad.append(('post:ua_follows', p.name))
+    return bad
